@@ -2,6 +2,8 @@
 
 package json
 
+import "github.com/tdewolff/minify/v2"
+
 // Harnesses for C07 (JSON value preservation), C09/C10/C14 parts for JSON.
 // Reference recogniser / tokenizer written from RFC 8259.
 
@@ -305,8 +307,7 @@ func VerifJSONTemplate(n int) {
 	verifJSONValue(total, in, buf)
 }
 
-// VerifJSONTotal: arbitrary bytes: no panic, sentinel restored, error or output; C09: accepted => output valid JSON
-// per the minifier itself (re-acceptance) -- the reference validity is only demanded for reference-valid input.
+// VerifJSONTotal: arbitrary bytes: no panic, terminates, sentinel byte restored (C10).
 func VerifJSONTotal(n int) {
 	buf := vBytes("in", n+1)
 	in := buf[:n]
@@ -316,13 +317,6 @@ func VerifJSONTotal(n int) {
 	vOutput("out", w.buf)
 	vOutputBool("err", err != nil)
 	vAssert(buf[n] == g0, "byte behind the caller's slice restored")
-	if err == nil {
-		// idempotent acceptance: feeding the output back succeeds
-		out := append(make([]byte, 0, len(w.buf)+1), w.buf...)
-		w2 := &vWriter{}
-		err2 := (&Minifier{}).Minify(nil, w2, &vReader{b: out}, nil)
-		vAssert(err2 == nil, "output of a successful run is accepted again")
-	}
 	vReach("end")
 }
 
@@ -364,5 +358,74 @@ func VerifJSONHugeExp(n int) {
 	vOutput("out", w.buf)
 	vAssert(err == nil, "valid JSON text is accepted")
 	vAssert(refJSONValid(w.buf), "output is valid JSON")
+	vReach("end")
+}
+
+// VerifJSONBytesContract: (*M).Bytes / (*M).String on arbitrary bytes: when an error is reported the returned
+// data is the caller's original data, unchanged (C10).
+func VerifJSONBytesContract(n int) {
+	buf := vBytes("in", n+1)
+	in := buf[:n] // one spare byte of capacity: the minifier works on the caller's array
+	orig := append([]byte(nil), in...)
+	m := minify.New()
+	m.AddFunc("application/json", Minify)
+	out, err := m.Bytes("application/json", in)
+	vOutput("out", out)
+	vOutputBool("err", err != nil)
+	if err != nil {
+		if !refBytesEq(out, orig) {
+			vKnown("C10-F2") // recorded finding: json.Minify rewrites numbers in place before the error is found
+		}
+	}
+	s, err2 := m.String("application/json", string(orig))
+	if err2 != nil {
+		vAssert(s == string(orig), "String: original data on error")
+	}
+	vReach("end")
+}
+
+var verifJSONBadSuffix = []string{",}", ",]", " x", ":", "", "]"}
+
+// VerifJSONBytesTemplate: [<n symbolic bytes><suffix>, suffixes mostly malformed: the number in front may be
+// rewritten in place before the parser meets the error; (*M).Bytes must still hand back the original bytes.
+func VerifJSONBytesTemplate(n int) {
+	h := vBytes("h", n)
+	sfx := verifJSONBadSuffix[vChoice("sfx", len(verifJSONBadSuffix))]
+	in := append(append(append(make([]byte, 0, n+len(sfx)+2), '['), h...), sfx...) // one spare byte of capacity
+	orig := append([]byte(nil), in...)
+	m := minify.New()
+	m.AddFunc("application/json", Minify)
+	out, err := m.Bytes("application/json", in)
+	vOutput("out", out)
+	vOutputBool("err", err != nil)
+	if err != nil && !refBytesEq(out, orig) {
+		vKnown("C10-F2")
+	}
+	vReach("end")
+}
+
+// VerifJSONReaccept (C09): arbitrary bytes; whenever the minifier returns without error, feeding its output to the
+// same minifier succeeds again.
+func VerifJSONReaccept(n int) {
+	buf := vBytes("in", n+1)
+	in := buf[:n]
+	orig := append([]byte(nil), in...)
+	w := &vWriter{}
+	err := (&Minifier{}).Minify(nil, w, &vReader{b: in}, nil)
+	vOutput("out", w.buf)
+	vOutputBool("err", err != nil)
+	if err == nil {
+		out := append(make([]byte, 0, len(w.buf)+1), w.buf...)
+		w2 := &vWriter{}
+		err2 := (&Minifier{}).Minify(nil, w2, &vReader{b: out}, nil)
+		if err2 != nil {
+			// recorded finding C09-F22: truncated (RFC-invalid) input such as `{"":` or `{"":"` is accepted without
+			// error (end of input is not reported inside an object member) and what is emitted for it is rejected
+			if !refJSONValid(orig) {
+				vKnown("C09-F22")
+			}
+			vFail("output of a successful run is accepted again")
+		}
+	}
 	vReach("end")
 }
